@@ -215,6 +215,9 @@ s={}\r\n\
             f.write_str("a=ice-lite\r\n")?;
         }
 
+        // session level direction, inherited by the media descriptions that follow
+        write!(f, "{}\r\n", self.direction)?;
+
         if let Some(ufrag) = &self.ice_ufrag {
             write!(f, "{ufrag}\r\n")?;
         }
